@@ -24,9 +24,142 @@ func (ex *Exec) fpRaw(s smt.Sort, head string, args ...*smt.Term) *smt.Term {
 	return ex.b.Raw(s, head, args...)
 }
 
+// ---- dyadic shadows ----
+//
+// A float64 term whose value is known to equal num/2^s exactly (num an Int term, s concrete) carries that fact as a
+// "shadow": floats converted from 32-bit integers, the correctly rounded float of a decimal (exactDecimalFloat) and
+// whatever floor/ceil/trunc/abs/neg make of those. Comparisons, conversions back to integers and the rounding
+// functions are then answered in integer arithmetic, which the solvers decide quickly, instead of through
+// int2bv/to_fp/bv2nat, which they do not. The shadow is a pure consequence of how the term was built (plus the
+// declared range of its variables), so it is keyed by term and survives across paths. The sign of a zero is not
+// represented; every use below is insensitive to it, everything else works on the FP term itself.
+type fpShadow struct {
+	num *smt.Term
+	s   uint
+}
+
+func (ex *Exec) setShadow(t *smt.Term, sh fpShadow) *smt.Term {
+	if ex.fpSh == nil || ex.fpShB != ex.b {
+		ex.fpSh, ex.fpShB = map[int]fpShadow{}, ex.b
+	}
+	ex.fpSh[t.ID] = sh
+	return t
+}
+
+func (ex *Exec) shadowOf(t *smt.Term) (fpShadow, bool) {
+	if c, ok := fpConstVal(t); ok {
+		if math.IsNaN(c) || math.IsInf(c, 0) {
+			return fpShadow{}, false
+		}
+		if c == 0 {
+			return fpShadow{ex.k(0), 0}, true
+		}
+		frac, e := math.Frexp(c) // c = frac * 2^e, 0.5 <= |frac| < 1
+		m := big.NewInt(int64(frac * (1 << 53)))
+		e -= 53
+		for e < 0 && m.Bit(0) == 0 {
+			m.Rsh(m, 1)
+			e++
+		}
+		if e >= 0 {
+			return fpShadow{ex.b.Int(m.Lsh(m, uint(e))), 0}, true
+		}
+		return fpShadow{ex.b.Int(m), uint(-e)}, true
+	}
+	if ex.fpSh == nil || ex.fpShB != ex.b {
+		return fpShadow{}, false
+	}
+	sh, ok := ex.fpSh[t.ID]
+	return sh, ok
+}
+
+// shadowPair aligns two shadows to a common denominator.
+func (ex *Exec) shadowPair(x, y *smt.Term) (nx, ny *smt.Term, ok bool) {
+	sx, okx := ex.shadowOf(x)
+	sy, oky := ex.shadowOf(y)
+	if !okx || !oky {
+		return nil, nil, false
+	}
+	if _, cx := fpConstVal(x); cx {
+		if _, cy := fpConstVal(y); cy {
+			return nil, nil, false
+		}
+	}
+	nx, ny = sx.num, sy.num
+	if sx.s < sy.s {
+		nx = ex.b.Mul(nx, ex.b.Int(smt.Pow2(sy.s-sx.s)))
+	} else if sy.s < sx.s {
+		ny = ex.b.Mul(ny, ex.b.Int(smt.Pow2(sx.s-sy.s)))
+	}
+	return nx, ny, true
+}
+
+var pow53 = smt.Pow2(53)
+
+func within53(t *smt.Term) bool {
+	return t.Lo != nil && t.Hi != nil && new(big.Int).Abs(t.Lo).Cmp(pow53) <= 0 && new(big.Int).Abs(t.Hi).Cmp(pow53) <= 0
+}
+
+// fpRound is floor (mode -1), ceil (+1) or trunc (0) of a float term.
+func (ex *Exec) fpRound(x *smt.Term, mode int) *smt.Term {
+	head := map[int]string{-1: "fp.roundToIntegral RTN", 1: "fp.roundToIntegral RTP", 0: "fp.roundToIntegral RTZ"}[mode]
+	r := ex.fpRaw(smt.SFP, head, x)
+	if sh, ok := ex.shadowOf(x); ok {
+		if sh.s == 0 {
+			return ex.setShadow(r, sh)
+		}
+		b := ex.b
+		den := b.Int(smt.Pow2(sh.s))
+		var q *smt.Term
+		switch mode {
+		case -1:
+			q = b.Div(sh.num, den)
+		case 1:
+			q = b.Neg(b.Div(b.Neg(sh.num), den))
+		default:
+			q = b.TDiv(sh.num, den)
+		}
+		return ex.setShadow(r, fpShadow{q, 0})
+	}
+	return r
+}
+
+func (ex *Exec) fpAbs(x *smt.Term) *smt.Term {
+	r := ex.fpRaw(smt.SFP, "fp.abs", x)
+	if sh, ok := ex.shadowOf(x); ok {
+		return ex.setShadow(r, fpShadow{ex.absT(sh.num), sh.s})
+	}
+	return r
+}
+
+func (ex *Exec) fpNeg(x *smt.Term) *smt.Term {
+	r := ex.fpRaw(smt.SFP, "fp.neg", x)
+	if sh, ok := ex.shadowOf(x); ok {
+		return ex.setShadow(r, fpShadow{ex.b.Neg(sh.num), sh.s})
+	}
+	return r
+}
+
 func (ex *Exec) fpBinop(fr *frame, pos token.Pos, op token.Token, x, y *smt.Term) *smt.Term {
 	cx, okx := fpConstVal(x)
 	cy, oky := fpConstVal(y)
+	if nx, ny, ok := ex.shadowPair(x, y); ok {
+		b := ex.b
+		switch op {
+		case token.EQL:
+			return b.Eq(nx, ny)
+		case token.NEQ:
+			return b.Ne(nx, ny)
+		case token.LSS:
+			return b.Lt(nx, ny)
+		case token.LEQ:
+			return b.Le(nx, ny)
+		case token.GTR:
+			return b.Gt(nx, ny)
+		case token.GEQ:
+			return b.Ge(nx, ny)
+		}
+	}
 	if okx && oky {
 		switch op {
 		case token.ADD:
@@ -51,14 +184,35 @@ func (ex *Exec) fpBinop(fr *frame, pos token.Pos, op token.Token, x, y *smt.Term
 			return ex.b.Bool(cx >= cy)
 		}
 	}
+	exact := func(r *smt.Term, f func(a, b *smt.Term) *smt.Term) *smt.Term {
+		// an integer result of magnitude <= 2^53 is representable, so the float operation is exact
+		sx, okx := ex.shadowOf(x)
+		sy, oky := ex.shadowOf(y)
+		if okx && oky && sx.s == 0 && sy.s == 0 {
+			if n := f(sx.num, sy.num); within53(n) {
+				return ex.setShadow(r, fpShadow{n, 0})
+			}
+		}
+		return r
+	}
 	switch op {
 	case token.ADD:
-		return ex.fpRaw(smt.SFP, "fp.add RNE", x, y)
+		return exact(ex.fpRaw(smt.SFP, "fp.add RNE", x, y), ex.b.Add)
 	case token.SUB:
-		return ex.fpRaw(smt.SFP, "fp.sub RNE", x, y)
+		return exact(ex.fpRaw(smt.SFP, "fp.sub RNE", x, y), ex.b.Sub)
 	case token.MUL:
-		return ex.fpRaw(smt.SFP, "fp.mul RNE", x, y)
+		return exact(ex.fpRaw(smt.SFP, "fp.mul RNE", x, y), ex.b.Mul)
 	case token.QUO:
+		if ex.fpOpaque[x.ID] && ex.fpOpaque[y.ID] {
+			// the quotient of two uninterpreted floats (results of transcendental functions): bit-blasting a 64-bit
+			// divider buys nothing here. The result is an arbitrary float that is NaN exactly when IEEE says so.
+			b := ex.b
+			zx, zy := ex.fpRaw(smt.SBool, "fp.isZero", x), ex.fpRaw(smt.SBool, "fp.isZero", y)
+			nan := b.Or(ex.fpIsNaN(x), ex.fpIsNaN(y), b.And(zx, zy), b.And(ex.fpIsInf(x), ex.fpIsInf(y)))
+			r := ex.freshFP("fp.div")
+			ex.assume(b.Eq(ex.fpIsNaN(r), nan))
+			return r
+		}
 		return ex.fpRaw(smt.SFP, "fp.div RNE", x, y)
 	case token.EQL:
 		return ex.fpRaw(smt.SBool, "fp.eq", x, y)
@@ -83,10 +237,16 @@ func (ex *Exec) intToFP(t *smt.Term, bits uint, signed bool) *smt.Term {
 		return ex.fpConst(f)
 	}
 	bv := ex.b.Raw(smt.BVSort(bits), fmt.Sprintf("(_ int2bv %d)", bits), ex.b.Wrap(t, bits, false))
+	var r *smt.Term
 	if signed {
-		return ex.fpRaw(smt.SFP, "(_ to_fp 11 53) RNE", bv)
+		r = ex.fpRaw(smt.SFP, "(_ to_fp 11 53) RNE", bv)
+	} else {
+		r = ex.fpRaw(smt.SFP, "(_ to_fp_unsigned 11 53) RNE", bv)
 	}
-	return ex.fpRaw(smt.SFP, "(_ to_fp_unsigned 11 53) RNE", bv)
+	if bits <= 32 || within53(t) {
+		ex.setShadow(r, fpShadow{t, 0}) // exactly representable
+	}
+	return r
 }
 
 // fpToInt converts float64 to a k-bit integer. Go leaves the result implementation-defined
@@ -118,6 +278,20 @@ func (ex *Exec) fpToInt(fr *frame, pos token.Pos, t *smt.Term, bits uint, signed
 		}
 		panic(ex.unsupported("out-of-range float to integer conversion for this width"))
 	}
+	if sh, ok := ex.shadowOf(t); ok {
+		q := sh.num
+		if sh.s > 0 {
+			q = b.TDiv(sh.num, b.Int(smt.Pow2(sh.s)))
+		}
+		inr := b.And(b.Le(b.Int(lo), q), b.Le(q, b.Int(hi)))
+		if amd64 {
+			return b.Ite(inr, q, b.Int(lo))
+		}
+		if ex.checkSat(b.Not(inr)) != smt.Unsat {
+			panic(ex.unsupported("possibly out-of-range float to integer conversion for this width"))
+		}
+		return q
+	}
 	// in-range test in FP: lo-1 < x < hi+1 (2^k bounds are exactly representable)
 	lof, _ := new(big.Float).SetInt(new(big.Int).Sub(lo, big1)).Float64()
 	hif, _ := new(big.Float).SetInt(new(big.Int).Add(hi, big1)).Float64()
@@ -143,12 +317,18 @@ func (ex *Exec) fpIsNaN(t *smt.Term) *smt.Term {
 	if c, ok := fpConstVal(t); ok {
 		return ex.b.Bool(math.IsNaN(c))
 	}
+	if _, ok := ex.shadowOf(t); ok {
+		return ex.b.False
+	}
 	return ex.fpRaw(smt.SBool, "fp.isNaN", t)
 }
 
 func (ex *Exec) fpIsInf(t *smt.Term) *smt.Term {
 	if c, ok := fpConstVal(t); ok {
 		return ex.b.Bool(math.IsInf(c, 0))
+	}
+	if _, ok := ex.shadowOf(t); ok {
+		return ex.b.False
 	}
 	return ex.fpRaw(smt.SBool, "fp.isInfinite", t)
 }
@@ -162,7 +342,12 @@ func (ex *Exec) freshFP(why string) *smt.Term {
 	if ex.solver != nil {
 		ex.solver.Declare(bits)
 	}
-	return ex.fpRaw(smt.SFP, "(_ to_fp 11 53)", bits)
+	r := ex.fpRaw(smt.SFP, "(_ to_fp 11 53)", bits)
+	if ex.fpOpaque == nil {
+		ex.fpOpaque = map[int]bool{}
+	}
+	ex.fpOpaque[r.ID] = true
+	return r
 }
 
 func (ex *Exec) freshBool(why string) *smt.Term {
